@@ -2355,3 +2355,30 @@ def r1_17(rep):
             rep.check(ok, "bool-literal-excluded-when:%s" % w, "an earlier arm takes the boolean when `%s` holds" % w if ok else
                       "a boolean enumerator is still printed as `true` / `false` when `%s` holds, although the enum's type is an integer then "
                       "(E0308)" % w, wv.loc(a["body"]))
+
+
+# =====================================================================================================
+# R1.18
+# =====================================================================================================
+@RULES.rule("R1.18", "bit-field accessors are renamed against EVERY member function", floor=1)
+def r1_18(rep):
+    """Getters `x()` and setters `set_x()` of a bit-field live in the same `impl` block as the wrappers of the class's member
+    functions - static ones included.  `assign_field_names` renames an accessor (`.._bindgen_bitfield`) when `has_method` finds a
+    member function of that name; `has_method` must look at all of them.  Leaving static functions out ("constructors and destructors
+    are wrapped as new / destruct anyway") gives two `set_mode` in one impl (E0592, seeded change)."""
+    prog = rep.prog
+    b = rep.need(next((x for p, x in prog.bodies.items() if p.endswith("assign_field_names::has_method")), None), "assign_field_names::has_method")
+    anys = [c for c in b.calls(lambda x: x["k"] == "MCall" and x["name"] in ("any", "find", "position", "all"))]
+    rep.need(anys, "the search over the methods in has_method")
+    for c in anys:
+        chain = []
+        x = strip(c["recv"])
+        while x.get("k") == "MCall":
+            chain.append(x["name"])
+            x = strip(x["recv"])
+        lossy = [m for m in chain if m in ("filter", "filter_map", "skip", "take", "skip_while", "take_while", "step_by")]
+        kinds = [y for y in b.walk(c) if y["k"] == "MCall" and (y.get("callee") or y.get("resolved") or "").endswith("comp::Method::kind")]
+        ok = not lossy and not kinds
+        rep.check(ok, "every-method-considered", "iterates over all methods, compares names only" if ok else
+                  "the search skips some methods (%s): an accessor that collides with one of the skipped functions keeps its name" %
+                  (", ".join(lossy) or "tests `method.kind()`"), b.loc(c))
